@@ -8,3 +8,93 @@ pub(crate) use self::{
     group::Group,
     tag::{Tag, TagSliceExt},
 };
+
+/// Read-only verification hooks around the group scanner primitives
+/// (cargo feature `verif-hooks`, off by default).
+#[cfg(feature = "verif-hooks")]
+pub(crate) mod verif {
+    use super::{BitMask, Group, Tag};
+    use crate::alloc::vec::Vec;
+
+    #[repr(C, align(16))]
+    struct Aligned([u8; 16]);
+
+    fn load(bytes: &[u8]) -> Group {
+        assert!(bytes.len() >= Group::WIDTH);
+        // SAFETY: at least `Group::WIDTH` readable bytes; `load` is unaligned.
+        unsafe { Group::load(bytes.as_ptr().cast()) }
+    }
+
+    fn bits(mask: BitMask) -> Vec<usize> {
+        mask.into_iter().collect()
+    }
+
+    /// Result of the `BitMask` queries: `(any_bit_set, lowest_set_bit,
+    /// leading_zeros, trailing_zeros)`.
+    pub type MaskQueries = (bool, Option<usize>, usize, usize);
+
+    fn queries(mask: BitMask) -> MaskQueries {
+        (
+            mask.any_bit_set(),
+            mask.lowest_set_bit(),
+            mask.leading_zeros(),
+            mask.trailing_zeros(),
+        )
+    }
+
+    /// `Group::load(bytes).match_tag(Tag(tag))` as the list of yielded positions.
+    pub fn group_match_tag(bytes: &[u8], tag: u8) -> Vec<usize> {
+        assert!(tag & 0x80 == 0);
+        bits(load(bytes).match_tag(Tag(tag)))
+    }
+
+    /// `match_empty` as the list of yielded positions.
+    pub fn group_match_empty(bytes: &[u8]) -> Vec<usize> {
+        bits(load(bytes).match_empty())
+    }
+
+    /// `match_empty_or_deleted` as the list of yielded positions.
+    pub fn group_match_empty_or_deleted(bytes: &[u8]) -> Vec<usize> {
+        bits(load(bytes).match_empty_or_deleted())
+    }
+
+    /// `match_full` as the list of yielded positions.
+    pub fn group_match_full(bytes: &[u8]) -> Vec<usize> {
+        bits(load(bytes).match_full())
+    }
+
+    /// `BitMask` queries on the result of `match_empty`.
+    pub fn group_match_empty_queries(bytes: &[u8]) -> MaskQueries {
+        queries(load(bytes).match_empty())
+    }
+
+    /// `BitMask` queries on the result of `match_empty_or_deleted`.
+    pub fn group_match_empty_or_deleted_queries(bytes: &[u8]) -> MaskQueries {
+        queries(load(bytes).match_empty_or_deleted())
+    }
+
+    /// `BitMask` queries on the result of `match_full`.
+    pub fn group_match_full_queries(bytes: &[u8]) -> MaskQueries {
+        queries(load(bytes).match_full())
+    }
+
+    /// `convert_special_to_empty_and_full_to_deleted` through an aligned
+    /// load/store round trip.
+    pub fn group_convert_special(bytes: &[u8]) -> Vec<u8> {
+        assert!(bytes.len() >= Group::WIDTH && Group::WIDTH <= 16);
+        let mut buf = Aligned([0; 16]);
+        buf.0[..Group::WIDTH].copy_from_slice(&bytes[..Group::WIDTH]);
+        // SAFETY: `buf` is 16-byte aligned and at least `Group::WIDTH` long.
+        unsafe {
+            let g = Group::load_aligned(buf.0.as_ptr().cast());
+            g.convert_special_to_empty_and_full_to_deleted()
+                .store_aligned(buf.0.as_mut_ptr().cast());
+        }
+        buf.0[..Group::WIDTH].to_vec()
+    }
+
+    /// `Tag::full(hash)` as a byte.
+    pub fn tag_full(hash: u64) -> u8 {
+        Tag::full(hash).0
+    }
+}
